@@ -147,7 +147,7 @@ class RemoteState(dict):
     @staticmethod
     def recreate_obj_and_patch_setstate(newobj, newargs, children_names):
         ret = newobj(*newargs)
-        orig_getstate = ret.__setstate__.__func__
+        orig_setstate = getattr(type(ret), '__setstate__', None) # a class is free not to define one, pickle then fills the instance's __dict__ (and slots)
         def patched_setstate(obj, state):
             if isinstance(state, dict):
                 patched_state = state.copy()
@@ -157,8 +157,18 @@ class RemoteState(dict):
             else:
                 patched_state = state
             del obj.__setstate__
-            assert obj.__setstate__.__func__ is orig_getstate
-            orig_getstate(obj, patched_state)
+            if orig_setstate is not None:
+                assert obj.__setstate__.__func__ is orig_setstate
+                orig_setstate(obj, patched_state)
+            else:
+                slotstate = None
+                if isinstance(patched_state, tuple) and len(patched_state) == 2:
+                    patched_state, slotstate = patched_state
+                if patched_state:
+                    obj.__dict__.update(patched_state)
+                if slotstate:
+                    for key, value in slotstate.items():
+                        setattr(obj, key, value)
             RemoteState.child_restored(obj)
 
         ret.__setstate__ = patched_setstate.__get__(ret, type(ret)) # pylint: disable=assignment-from-no-return,no-value-for-parameter
